@@ -24,8 +24,8 @@ ASSUMPTIONS = [
     "semantic equality is only demanded of strings that evaluate to a type; arithmetic containing '|' is only checked for termination",
 ]
 PLAN = {"quick": dict(cases=40000), "thorough": dict(cases=1500000)}
-FLOORS = {"quick": {"semantic_checked": 25000, "fixpoint_checked": 35000, "ast_identity_checked": 3000, "with_pipe": 15000},
-          "thorough": {"semantic_checked": 900000, "fixpoint_checked": 1300000, "ast_identity_checked": 100000, "with_pipe": 500000}}
+FLOORS = {"quick": {"semantic_checked": 25000, "fixpoint_checked": 35000, "ast_identity_checked": 3000, "with_pipe": 11000},
+          "thorough": {"semantic_checked": 900000, "fixpoint_checked": 1300000, "ast_identity_checked": 100000, "with_pipe": 350000}}
 
 
 class Foo:
